@@ -51,6 +51,7 @@ class Outcome:
         self.final = None
         self.pending = False
         self.note = None
+        self.optional = set()     # indices into events: strict events that were pending (same gap) when a *handled* error struck (T3)
 
 
 _auto_cache = {}
@@ -84,6 +85,7 @@ class Interp:
         self.foreach_stack = []
         self.last = None
         self.pending_vars = set()     # outputs assigned by plain (non-strict) actions since the last consumed byte
+        self.gap_start = 0            # index of the first event emitted since the last consumed byte
         self.tainted = set()          # outputs whose value is uncertain: such an action was pending when an error struck (T3)
         for o in prog.outs:
             k = o[0]
@@ -129,6 +131,7 @@ class Interp:
         self.pos += 1
         self.last = sym
         self.pending_vars = set()
+        self.gap_start = len(self.out.events)
 
     # ------------------------------------------------------------------ helpers
     def snapshot(self):
@@ -269,6 +272,7 @@ class Interp:
                     raise
                 # plain actions of this gap may or may not have been performed by an implementation when the error struck
                 self.tainted |= self.pending_vars
+                self.out.optional |= set(range(self.gap_start, len(self.out.events)))
                 self.exec_body(s[3])
         elif k == "foreach":
             self.foreach_stack.append(s[2])
